@@ -148,6 +148,35 @@ def gen_spec(rng, n_nodes=None, named_edges=True, allow_meta=True, want_disc=Non
     return nodes
 
 
+def gen_abc_spec(rng):
+    """An ABC-shaped model: priors -> simulator (mostly with data) -> summaries -> discrepancy, optionally with a
+    plain Operation spliced in after the simulator or after a summary (then the observed data would depend on a
+    stochastic node through a node without an observed twin, and the graph must be rejected)."""
+    names = rng.sample(NAME_POOL, 9)
+    nodes = []
+
+    def add(kind, parents, observed=None, value=None):
+        nm = names[len(nodes)]
+        nodes.append(dict(name=nm, kind=kind, parents=[[p, k] for k, p in enumerate(parents)], named=[],
+                          value=value, observed=observed, uses_meta=False))
+        return nm
+    pri = [add('prior', []) for _ in range(rng.randint(1, 2))]
+    if rng.random() < 0.3:
+        pri.append(add('const', [], value=100))
+    sim = add('sim', pri, observed=1001 if rng.random() < 0.85 else None)
+    src = sim
+    spliced = False
+    if rng.random() < 0.3:
+        src = add('op', [sim])
+        spliced = True
+    sums = [add('summary', [src]) for _ in range(rng.randint(1, 2))]
+    if rng.random() < 0.15:
+        sums[-1] = add('op', [sums[-1]])
+        spliced = True
+    add('disc', sums)
+    return nodes, spliced
+
+
 def build_model(spec, rec, order=None):
     """Create the real ElfiModel from a spec (optionally inserting nodes in another valid order)."""
     import elfi
